@@ -231,7 +231,13 @@ def run_long(spec, rec):
         classes = textual_classes(v)
         name = rng.choice(sorted(classes))
         alpha = alphabet(ec) + list('abXY09.')
-        x = ''.join(rng.choice(alpha) for _ in range(rng.randint(7, 40)))
+        n = rng.randint(7, 40)
+        if i % 40 == 0:
+            # a report-sized leaf: hundreds of delimiters, escape sequences and lone escape characters in one value
+            n = rng.choice([257, 300, 520, 1100, 2100])
+            alpha = alphabet(ec)
+            rec.count('very_long_strings')
+        x = ''.join(rng.choice(alpha) for _ in range(n))
         judge(classes[name], name, v, x, ec, letters, rec)
     rec.count('long_strings', spec['n'])
 
